@@ -69,7 +69,7 @@ CLAIMED = {
     "C08": {
         "text": "Machine-checked theorems over all kernel answers: a handle that is not masked never retries; two levels of the "
                 "masked-handle retry are all any lookup uses (popen with any fuel >= 2 equals popen with fuel 2), so at most one extra "
-                "procfs handle exists; descriptor balance of open/readlink including the extra handle. Runtime: 10 real procfs "
+                "procfs handle exists; descriptor balance of open/readlink including the extra handle. Runtime: 12 real procfs "
                 "configurations in a private mount namespace (root / uid 2000 x default, hidepid=1/2/ptraceable, subset=pid x "
                 "constructors available / denied) x both resolvers x bases x {existing, missing, masked} paths: ENOENT for missing "
                 "paths, constructor attempts <= 3, new handles <= 1, syscall count and wall time bounded, descriptor table unchanged; "
